@@ -22,7 +22,7 @@ Your job: produce ONE realistic change to nebula's non-test Go source (the kind 
   * the breakage needs something specific to manifest — a particular interleaving, a multi-step sequence of operations, an unusual or boundary input, a rare state, or two cooperating sites — NOT something ordinary use or a trivial smoke test would expose at once. Prefer a change that only misbehaves on a narrow input class.
 Do not change test files, build files, or anything unrelated; keep the change small (a few lines). Do not add comments that reveal the change.
 
-Also produce a demonstration: a new Go test file (or small program) that FAILS with your change applied and PASSES on the original code, exercising the real nebula code. Verify both directions yourself (use `git stash` / `git stash pop`, or `git diff > patch; git checkout -- .; …`).
+Also produce a demonstration: a new Go test file (or small program) that FAILS with your change applied and PASSES on the original code, exercising the real nebula code. Verify both directions yourself (use `git diff > patch.diff; git checkout -- .; …; git apply patch.diff`; do NOT use `git stash`: the stash is shared with other worktrees of the same repository that other people are using).
 
 Deliver, in the directory {wt}-out/ (create it):
   patch.diff   — `git diff` of your change to non-test source only (must apply with `git apply` on the original tree)
